@@ -36,7 +36,10 @@ Definition check (c : case) : nat :=
   | Some g =>
     if raised c then 1 else
     bit (negb (same_graph g c && agree_run g false (r_def c) && agree_run g true (r_triv c))) 1
+    (* the statement, evaluated on the implementation's components: against the graph the implementation reports AND against
+       the graph that the construction history describes (what the caller's collections held at the time of each call) *)
     + bit (negb (match r_def c, r_triv c with
                  | Some d, Some t => c20_ok (impl_graph c) false d && c20_ok (impl_graph c) true t
+                                     && c20_ok g false d && c20_ok g true t
                  | _, _ => false end)) 2
   end.
